@@ -15,6 +15,9 @@ ClsC    == <<"asm", "blk", "cmp", "cmp">>
 \* tree D: block > component
 ParentD == <<0, 1>>
 ClsD    == <<"blk", "cmp">>
+\* tree E: assembly (axial bounds) > block (hex pitch)
+ParentE == <<0, 1>>
+ClsE    == <<"asm", "blk">>
 KeepsNone == {{}}
 
 McParOf   == [c \in {"asm", "blk", "cmp"} |-> Par]
